@@ -29,6 +29,9 @@ TRUSTED_BASE = [
     'T-float: float treated as exact real (no NaN/inf/rounding) except the distinguished NAN constant',
     'T-drop: decorators, annotations, docstrings, print/log calls are dropped by the extraction',
     'T-noalias: distinct container parameters / fields do not alias unless the contract says so',
+    'T-refeq: == and hashing of node objects are modelled as object identity (nodes that are equal but distinct objects, such as two SupNode objects with the same name and reference, are outside the deductive model; the bounded layer of C20 uses them)',
+    'T-arity: a tuple of another length is not a member of a set whose declared element type is a tuple of fixed length',
+    'T-sorted: sorted() of numbers is characterised by facts true of every sorted permutation (same length, ascending, same elements, distinct if the argument is), not by being a permutation',
     'partial correctness: termination is not proved',
 ]
 
